@@ -1,2 +1,6 @@
 import P2P.Props.C14
-#print axioms P2P.Props.C14.placeholder
+#print axioms P2P.Props.C14.key_interval
+#print axioms P2P.Props.C14.close_implies_adjacent
+#print axioms P2P.Props.C14.near_complete_static
+#print axioms P2P.Props.C14.inv_after_any_history
+#print axioms P2P.Props.C14.near_excludes_self
